@@ -3,6 +3,8 @@ package main
 import (
 	"go/ast"
 	"go/token"
+	"os"
+	"path/filepath"
 	"sort"
 	"strings"
 )
@@ -73,5 +75,78 @@ func init() {
 		ex.setBool("c19HeaderEofOnly", okEof, rd != nil, "readDump: only io.EOF on the 8-byte header read is the clean end; every other read error is returned")
 		ex.setBool("c19HeaderNameChecked", okHdr, rd != nil, "readDump: gzip header name must be dumpHeader")
 		ex.setBool("c19ReadUsesAllTimes", okTimes, rd != nil, "readDump: each entry is stored under its dumped key with its dumped stored / message-expiry / cache-expiry times")
+
+		// writeDump keeps no state outside its own frame between "marshal a block"
+		// and "the bytes were handed to the compressor": the only use of the
+		// receiver is c.backend.Range(rangeFunc); the block, the marshaled bytes,
+		// the length header and the gzip writer are locals created by this call;
+		// no package-level variable of the cache package is referenced.
+		okLocal := false
+		if wd != nil && wd.Recv != nil && len(wd.Recv.List) == 1 && len(wd.Recv.List[0].Names) == 1 {
+			recv := wd.Recv.List[0].Names[0].Name
+			pkgVars := map[string]bool{}
+			dir := filepath.Dir(crel)
+			des, _ := os.ReadDir(filepath.Join(ex.repo, dir))
+			for _, de := range des {
+				if de.IsDir() || !strings.HasSuffix(de.Name(), ".go") || strings.HasSuffix(de.Name(), "_test.go") {
+					continue
+				}
+				f := ex.file(filepath.Join(dir, de.Name()))
+				if f == nil {
+					continue
+				}
+				for _, d := range f.Decls {
+					if gd, ok := d.(*ast.GenDecl); ok && gd.Tok == token.VAR {
+						for _, sp := range gd.Specs {
+							if vs, ok := sp.(*ast.ValueSpec); ok {
+								for _, n := range vs.Names {
+									pkgVars[n.Name] = true
+								}
+							}
+						}
+					}
+				}
+			}
+			recvUses, backendRange, pkgVarUses := 0, 0, 0
+			fieldNames := map[*ast.Ident]bool{} // x.Sel and struct-literal keys are not variable references
+			ast.Inspect(wd.Body, func(n ast.Node) bool {
+				switch x := n.(type) {
+				case *ast.SelectorExpr:
+					fieldNames[x.Sel] = true
+				case *ast.CompositeLit:
+					for _, e := range x.Elts {
+						if kv, ok := e.(*ast.KeyValueExpr); ok {
+							if id, ok := kv.Key.(*ast.Ident); ok {
+								fieldNames[id] = true
+							}
+						}
+					}
+				case *ast.CallExpr:
+					if ex.str(x) == recv+".backend.Range(rangeFunc)" {
+						backendRange++
+					}
+				}
+				return true
+			})
+			ast.Inspect(wd.Body, func(n ast.Node) bool {
+				id, ok := n.(*ast.Ident)
+				if !ok || fieldNames[id] {
+					return true
+				}
+				local := id.Obj != nil && id.Obj.Pos() >= wd.Pos() && id.Obj.Pos() <= wd.End()
+				if id.Name == recv {
+					recvUses++
+				} else if pkgVars[id.Name] && id.Name != "_" && !local {
+					pkgVarUses++
+				}
+				return true
+			})
+			ss := stmtStrings(ex, wd.Body)
+			okLocal = recvUses == 1 && backendRange == 1 && pkgVarUses == 0 &&
+				contains(ss, "b, err := proto.Marshal(block)") && contains(ss, "l := make([]byte, 8)") &&
+				contains(ss, "block := new(CacheDumpBlock)") && contains(ss, "gw, _ := gzip.NewWriterLevel(w, gzip.BestSpeed)") &&
+				contains(ss, "_, err = gw.Write(l)") && contains(ss, "_, err = gw.Write(b)")
+		}
+		ex.setBool("c19WriterStateLocal", okLocal, wd != nil, "writeDump: the receiver is used only for c.backend.Range(rangeFunc); block, marshaled bytes (fresh slice from proto.Marshal), length header and gzip writer are locals of the call; no package-level variable is referenced - overlapping dumps share nothing but the store")
 	})
 }
